@@ -14,6 +14,16 @@ use std::collections::HashSet;
 use target_actor::{ActorId, ActorInputMessage, ExecutionKind, TargetActorOutputMessage};
 pub use target_actors::TargetActors;
 
+#[cfg(zinoma_verif)]
+#[allow(unused_imports)]
+pub mod verif_api {
+    pub use super::builder::BuildTerminationReport;
+    pub use super::target_actor::{
+        ActorId, ActorInputMessage, ExecutionKind, TargetActorOutputMessage,
+    };
+    pub use super::watcher::{TargetInvalidatedMessage, TargetWatcher};
+}
+
 pub async fn run(
     root_target_ids: Vec<TargetId>,
     watch_option: WatchOption,
@@ -55,6 +65,8 @@ async fn watch(
         futures::select! {
             _ = termination_events.next().fuse() => break,
             target_actor_output = target_actor_output_events.next().fuse() => {
+                #[cfg(zinoma_verif)]
+                crate::verif::emit("relay_recv", "", &[("out", target_actor_output.as_ref().unwrap().verif_json())]);
                 match target_actor_output.unwrap() {
                     TargetActorOutputMessage::TargetExecutionError(target_id, e) => {
                         log::warn!("{} - {}", target_id, e);
@@ -62,6 +74,8 @@ async fn watch(
                     TargetActorOutputMessage::MessageActor { dest, msg } => {
                         if let ActorId::Target(target_id) = dest {
                             target_actors.send(&target_id, msg).await?;
+                            #[cfg(zinoma_verif)]
+                            crate::verif::emit("relay_fwd", &target_id.to_string(), &[]);
                         }
                     }
                 }
@@ -90,13 +104,19 @@ async fn execute_once(
         futures::select! {
             _ = termination_events.next().fuse() => termination_event_received = true,
             target_actor_output = target_actor_output_events.next().fuse() => {
+                #[cfg(zinoma_verif)]
+                crate::verif::emit("relay_recv", "", &[("out", target_actor_output.as_ref().unwrap().verif_json())]);
                 match target_actor_output.unwrap() {
                     TargetActorOutputMessage::TargetExecutionError(target_id, e) => {
+                        #[cfg(zinoma_verif)]
+                        crate::verif::emit("root_error", &target_id.to_string(), &[]);
                         return Err(e.context(format!("An issue occurred with target {}", target_id)));
                     },
                     TargetActorOutputMessage::MessageActor { dest, msg } => match dest {
                         ActorId::Target(target_id) => {
                             target_actors.send(&target_id, msg).await?;
+                            #[cfg(zinoma_verif)]
+                            crate::verif::emit("relay_fwd", &target_id.to_string(), &[]);
                         }
                         ActorId::Root => match msg {
                             ActorInputMessage::Ok { kind: ExecutionKind::Build, target_id, .. } => {
@@ -117,7 +137,19 @@ async fn execute_once(
         }
     }
 
+    #[cfg(zinoma_verif)]
+    crate::verif::emit(
+        "root_loop_exit",
+        "",
+        &[
+            ("signalled", termination_event_received.to_string()),
+            ("service_roots", crate::verif::js_set(service_root_targets.iter().map(ToString::to_string))),
+        ],
+    );
+
     if !termination_event_received && !service_root_targets.is_empty() {
+        #[cfg(zinoma_verif)]
+        crate::verif::emit("root_wait_signal", "", &[]);
         // Wait for termination event
         termination_events
             .recv()
